@@ -10,9 +10,11 @@
   Arithmetic: the expected piece count is `-(-int(size) // piece_length)` (integer arithmetic,
   /repo commit bbc687b), i.e. the exact ceiling for numbers of any size.
 
-  Messages: `assert_type` and `validate` format offending values into the MetainfoError message;
-  `repr`/`str` of an integer of more than 4300 digits raises ValueError (CPython's int→str limit),
-  which escapes instead of the MetainfoError (finding D07j) — modelled by `raiseRepr`/`raiseInt`.
+  Messages: `assert_type` and `validate` format offending values into the MetainfoError message
+  with `utils.safe_repr` (/repo commit 3420ff7: `repr` that never raises, falls back to
+  `<typename>`), so building a message cannot fail: wherever the code raises MetainfoError the
+  model returns `error metainfo`, whatever the value is (finding D07j is repaired; the former
+  `raiseRepr`/`raiseInt` are gone).
 -/
 import Torf.Model.Export
 namespace Torf.Validate
@@ -93,38 +95,14 @@ structure Rule where
   mustExist : Bool := true
   check : Option (PyVal → Bool) := none
 
-mutual
-/-- `repr(v)` raises ValueError: an `int` of more than 4300 digits at any depth (a real `float`
-    is below 2^1024 and always printable) -/
-def reprFails : PyVal → Bool
-  | .int i => intTooBig i
-  | .list l => reprFailsList l
-  | .tuple l => reprFailsList l
-  | .dict kvs => reprFailsKvs kvs
-  | _ => false
-def reprFailsList : List PyVal → Bool
-  | [] => false
-  | v :: r => reprFails v || reprFailsList r
-def reprFailsKvs : List (PyVal × PyVal) → Bool
-  | [] => false
-  | (k, v) :: r => reprFails k || reprFails v || reprFailsKvs r
-end
-
-/-- `raise MetainfoError(f'… {value!r}')`: building the message can itself raise -/
-def raiseRepr (v : PyVal) : Except ErrKind α :=
-  if reprFails v then throw (.internal "ValueError") else throw .metainfo
-
-/-- `raise MetainfoError(f'… {n} …')` for an integer `n` -/
-def raiseInt (n : Int) : Except ErrKind α :=
-  if intTooBig n then throw (.internal "ValueError") else throw .metainfo
-
 /-- the value satisfies the rule: `isinstance(value, exp_types)` and `check(value)` -/
 def passes (r : Rule) (v : PyVal) : Bool :=
   r.types v && (match r.check with | some c => c v | none => true)
 
-/-- the `elif not isinstance(…)` / `elif check is not None and not check(…)` branches -/
+/-- the `elif not isinstance(…)` / `elif check is not None and not check(…)` branches; the
+    message is built with `safe_repr(obj[key])`, which never raises -/
 def checkVal (r : Rule) (v : PyVal) : Except ErrKind Unit :=
-  if passes r v then pure () else raiseRepr v
+  if passes r v then pure () else throw .metainfo
 
 /-- the part of `assert_type` after the key chain has been walked: `key` is looked up in `obj` -/
 def assertFinal (obj : PyVal) (key : Key) (r : Rule) : Except ErrKind Unit := do
@@ -261,29 +239,6 @@ def filesNotMapping (md0 : Items) : Bool :=
   | some (.dict info) => (match PyVal.lookupStr "files" info with | some (.dict _) => false | _ => true)
   | _ => true
 
-mutual
-/-- sum of the magnitudes of all numbers in a value (`int`s incl. `bool`s and truncated finite
-    `float`s, keys included) -/
-def sumAbs : PyVal → Nat
-  | .int i => i.natAbs
-  | .bool b => if b then 1 else 0
-  | .float (.fin t _ _) => t.natAbs
-  | .list l => sumAbsList l
-  | .tuple l => sumAbsList l
-  | .dict kvs => sumAbsKvs kvs
-  | _ => 0
-def sumAbsList : List PyVal → Nat
-  | [] => 0
-  | v :: r => sumAbs v + sumAbsList r
-def sumAbsKvs : List (PyVal × PyVal) → Nat
-  | [] => 0
-  | (k, v) :: r => sumAbs k + sumAbs v + sumAbsKvs r
-end
-
-/-- no MetainfoError message can hit the int→str limit (the complement is finding D07j): the
-    magnitudes of all numbers in the metainfo add up to a number of at most 4300 digits -/
-def numbersSmall (md0 : Items) : Bool := decide (sumAbs (.dict md0) < 10 ^ maxStrDigits)
-
 def entryJoinable : PyVal → Bool
   | .dict e =>
     (match PyVal.lookupStr "path" e with
@@ -302,11 +257,12 @@ def pathsJoinable (md0 : Items) : Bool :=
      | _ => true)
   | _ => true
 
-/-- outside the classes of the open findings D07f (`files` is a mapping; with a content path, a
-    `path` that `os.path.join` rejects) and D07j (numbers beyond the int→str limit): the
-    hypothesis of `C07_validate_only_metainfo_error`, evaluated by the driver as `hypThm` -/
-def outsideD07fD07j (fs : FsOracle) (md0 : Items) : Bool :=
-  filesNotMapping md0 && (!fs.hasPath || pathsJoinable md0) && numbersSmall md0
+/-- outside the class of the open finding D07f (`files` is a mapping; with a content path, a
+    `path` that `os.path.join` rejects): the hypothesis of `C07_validate_only_metainfo_error`,
+    evaluated by the driver as `hypThm`.  (Until /repo 3420ff7 the hypothesis also excluded numbers
+    beyond the int→str limit, finding D07j.) -/
+def outsideD07f (fs : FsOracle) (md0 : Items) : Bool :=
+  filesNotMapping md0 && (!fs.hasPath || pathsJoinable md0)
 
 section
 variable (urlOk : Bytes → Bool) (fs : FsOracle)
@@ -346,7 +302,7 @@ def checkFileOnDisk (i : Nat) (fileinfo : PyVal) : Except ErrKind Unit := do
   if !fact.isFile then throw .metainfo
   let l ← getE fileinfo (.s "length")
   match numVal? l with
-  | some n => if (fact.size : Int) ≠ n then raiseRepr l   -- message formats `fileinfo['length']`
+  | some n => if (fact.size : Int) ≠ n then throw .metainfo   -- `safe_repr(fileinfo['length'])`
   | none => throw (.internal "TypeError")
 
 /-- the rules shared by single-file and multi-file torrents -/
@@ -379,11 +335,11 @@ def checkSingle (md info : PyVal) (plen : Nat) : Except ErrKind Unit := do
   | none => throw (.internal "TypeError")
   | some len =>
     let exp := expPieces len pl
-    -- the message formats both counts; `piece_count <= sys.maxsize` is always printable
-    if (pieceCount : Int) ≠ exp then raiseInt exp
+    -- the message formats `safe_repr(exp_piece_count)` and `piece_count <= sys.maxsize`
+    if (pieceCount : Int) ≠ exp then throw .metainfo
     if fs.hasPath then
       if !fs.rootIsFile then throw .metainfo
-      if (fs.rootSize : Int) ≠ len then raiseRepr l          -- message formats `info['length']`
+      if (fs.rootSize : Int) ≠ len then throw .metainfo      -- `safe_repr(info['length'])`
 
 /-- the `elif 'files' in info:` branch -/
 def checkMulti (md info : PyVal) (plen : Nat) : Except ErrKind Unit := do
@@ -394,7 +350,7 @@ def checkMulti (md info : PyVal) (plen : Nat) : Except ErrKind Unit := do
   let total ← sumLengths files 0
   let pl := intVal (← getE info (.s "piece length"))
   let exp := expPieces total pl
-  if (pieceCount : Int) ≠ exp then raiseInt exp
+  if (pieceCount : Int) ≠ exp then throw .metainfo            -- `safe_repr(exp_piece_count)`
   if fs.hasPath then
     if !fs.rootIsDir then throw .metainfo
     forEnum (checkFileOnDisk fs) 0 files
